@@ -58,6 +58,18 @@ def run_check(prop, tier, repo_root, evidence_dir):
     try:
         ctx = Ctx(prop, tier=tier, repo=Repo(repo_root), evidence_dir=evidence_dir)
         mod.check(ctx)
+        if tier == "thorough" and not os.environ.get("XV_NO_SELFTEST"):
+            # rule-armedness self-test against mutants of the *current* tree; reported in the
+            # evidence only, the exit code reflects the analysed tree alone
+            try:
+                from .selftest.run import summary
+
+                os.environ["XV_NO_SELFTEST"] = "1"
+                ctx.extra["selftest"] = summary(prop)
+            except Exception as e:  # never let the self-test change a verdict
+                ctx.extra["selftest"] = {"error": f"{type(e).__name__}: {e}"}
+            finally:
+                os.environ.pop("XV_NO_SELFTEST", None)
         return ctx.finish()
     except AnalysisError as e:
         print(f"ANALYSIS-ERROR property={prop} {e}")
